@@ -9,5 +9,5 @@ int gh_rt_neg;             /* read_token has delivered a negative code */
 int gh_last_code;          /* code delivered by the most recent read_token call */
 int gh_adds;               /* 1 once tok_add has been called */
 int gh_last_added; void *gh_last_attr;   /* arguments of the most recent tok_add call */
-const char *gh_buf; size_t gh_n; int gh_ln0;   /* description text, its size including the NUL, line number at entry */
+const char *gh_buf; size_t gh_n; int gh_ln0; size_t gh_off0;   /* description text, its size including the NUL, line number and cursor offset at entry */
 #endif
